@@ -87,3 +87,23 @@ def trace_replay_record(spec, iid, inst, actions, **extra):
     rec = dict(kind="env_trace", spec=spec.key, instance_id=iid, instance=inst, actions=list(actions))
     rec.update(extra)
     return rec
+
+
+def solo_confirm(spec, inst, actions, solution_len=None):
+    """Re-execute one path solo.  Returns dict(admitted=all actions offered by the solo masks, done_at=first step
+    with done, td=final TensorDict, error=exception or None).  Used to separate genuine single-instance
+    violations from leaks between rows of the batched frontier (those belong to C04)."""
+    env = spec.env(inst)
+    try:
+        td, masks, dones = E.run_solo(env, spec.td(inst), actions)
+    except Exception as e:  # noqa: BLE001
+        return dict(admitted=False, done_at=None, td=None, error=e, env=env)
+    admitted = all(masks[t][a] for t, a in enumerate(actions))
+    done_at = next((t for t, d in enumerate(dones) if d), None)
+    return dict(admitted=admitted, done_at=done_at, td=td, error=None, env=env, masks=masks, dones=dones)
+
+
+def solo_reward(env, td, actions):
+    acts = torch.tensor([list(actions)], dtype=torch.long).reshape(1, len(actions))
+    E._set_bs(env, 1)
+    return float(env._get_reward(td, acts).reshape(-1)[0])
